@@ -39,8 +39,9 @@ CHECK = Check(
         "is refused by the library and WriteSlice swallows that error: outside the stated property, modelled and compared)",
         "element types float64, float32, int32, uint32, int64, uint64 (narrow = false); int / uint: known finding "
         "KF-C08-int-width (the model mirrors it, witness narrow_roundtrip_loses_elements)",
-        "sliceSize is modelled AS REPAIRED by /verif/fixes/h5_slicesize_ceil.diff (sliceSizeFloor_drops_last is the proved "
-        "counter-example for the code before the repair); rank-0 shapes, negative extents, compress=true and datasets "
+        "sliceSize is the code as repaired by /verif/fixes/h5_slicesize_ceil.diff (fix commit 6552b9c; "
+        "sliceSizeFloor_drops_last is the proved counter-example for the code before the repair, replay "
+        "/verif/replays/known/C08-6552b9c.json); rank-0 shapes, negative extents, compress=true and datasets "
         "above 2^40 bytes are outside the model",
     ],
 )
@@ -61,8 +62,8 @@ META = dict(
     note="libhdf5 + gonum are MODELLED by /verif/harness/hdf5stub (no libhdf5 in the sandbox) and by the hyperslab/transfer "
          "specification in OW/Sim/H5.lean; sync.RWMutex trusted; the go/ast extractor of the lock graph trusted "
          "(conservative); Lean kernel + propext/Classical.choice/Quot.sound. Known finding KF-C08-int-width (H5RefInt/"
-         "H5RefUint lose half of every array, as derived from the gonum source). Requires /verif/fixes/"
-         "h5_slicesize_ceil.diff in /repo (the checked-in sliceSize drops the last element when (stop-start) mod step != 0).",
+         "H5RefUint lose half of every array, as derived from the gonum source). Defect found and repaired: sliceSize "
+         "dropped the last element of a stepped selection when (stop-start) mod step != 0 (fix 6552b9c).",
     technique="Lean 4 proofs (induction over dimensions/lists, omega/linarith) + regenerated facts (go/ast call graph, "
               "kernel-evaluated checker) + differential correspondence model vs real code with a dynamic lock monitor",
 )
